@@ -272,7 +272,50 @@ def run(tier):
             # final observation (the last emit) must not depend on the order of the importing modules
             if runs[0][0][-1] != runs[1][0][-1] or any(r[0][i] != "T" for r in runs for i in (0, 1)):
                 res.violation("C04:history", {"path": info[0], "m1": info[1], "m2": info[2], "order_ab": runs[0][0], "order_ba": runs[1][0]})
+    # (6) strings whose 32-bit hashes COLLIDE, one a literal (interned into the frozen heap at compile time), the other built at
+    # run time (re-allocated through the frozen heap's interner on freeze): freezing must keep them apart.  The colliding pairs are
+    # found by exhaustive search over the first N strings of a family, using the implementation's own hash.
+    N = 200000 if tier == "quick" else 1000000
+    ho = vlib.run_sut("run", [{"id": 0, "steps": [f"emit([key_hash('key_%d' % i) for i in range({N})])\n"], "opts": {"dialect": "all"}}], timeout=900)[0]
+    hs = [int(x[1:]) for x in ho["steps"][0]["out"][0][4:-1].split(",")]
+    first, pairs = {}, []
+    for i, h in enumerate(hs):
+        if h in first:
+            pairs.append((first[h], i))
+        else:
+            first[h] = i
+    pairs = pairs[:8]
+    cspecs = []
+    for (i, j) in pairs:
+        for lit, run_ in ((i, j), (j, i)):
+            a_, b_ = f"key_{lit}", f"key_{run_}"
+            lib2 = (f'A1 = "{a_}"\nB1 = host_str("{b_}")\nB2 = "key_" + str({run_})\nB3 = "%s_%d" % ("key", {run_})\n'
+                    f'PAIR = [A1, B1, B2, B3, host_str("{a_}")]\nDK = {{A1: 1}}\nDK[B1] = 2\nSK = set([B2, A1])\nTB = (B1, [B3])\n')
+            names = ["A1", "B1", "B2", "B3", "PAIR", "DK", "SK", "TB"]
+            obs2 = "".join(f"emit({n})\n" for n in names) + "emit([A1 == B1, B1 == B2, len(DK), len(SK), DK.get(B3), B1 in SK, A1 in SK])\n"
+            cspecs.append({"id": len(cspecs), "steps": [lib2 + obs2], "opts": {"dialect": "all", "freeze_get": names}})
+            cspecs.append({"id": len(cspecs), "libs": [["col.star", lib2]], "opts": {"dialect": "all"},
+                           "steps": ['load("col.star", ' + ", ".join(f'"{n}"' for n in names) + ")\n" + obs2]})
+    couts = vlib.run_sut("run", cspecs) if cspecs else []
+    for k in range(0, len(couts), 2):
+        inside, loaded = couts[k], couts[k + 1]
+        checks += 1
+        if any("crash" in o or "panic" in o for o in (inside, loaded)):
+            res.violation("C04:collision:crash", {"spec": cspecs[k], "out": [str(inside)[:300], str(loaded)[:300]]})
+            continue
+        a_out = [x for st in inside["steps"] for x in st["out"]]
+        b_out = [x for st in loaded["steps"] for x in st["out"]]
+        fz = inside.get("frozen") or {}
+        if a_out != b_out:
+            i = next((i for i, (x, y) in enumerate(zip(a_out, b_out)) if x != y), 0)
+            res.violation("C04:not-preserved:colliding-strings", {"spec": cspecs[k], "before_freeze": a_out[i], "after_freeze_loaded": b_out[i]})
+        elif any(fz.get(n) != a_out[i] for i, n in enumerate(["A1", "B1", "B2", "B3", "PAIR", "DK", "SK", "TB"])):
+            res.violation("C04:not-preserved-api:colliding-strings", {"spec": cspecs[k], "before_freeze": a_out[:8], "get_owned": fz})
+    if not pairs:
+        raise vlib.Machinery(f"no colliding pair among the first {N} strings")
+    collision_pairs = len(pairs)
     res.coverage = {
+        "hash_colliding_string_pairs": collision_pairs,
         "evaluations": checks,
         "programs": len(specs),
         "distinct_nontrivial": len(distinct),
